@@ -333,6 +333,11 @@ def end_to_end_schedule(ctx, res):
         ('crossing-pfs-ecp', {'child_dh': ['19'], 'dpd': 3000, 'ike_lifetime': 5000}),
         ('crossing-pfs-modp', {'child_dh': ['14'], 'dpd': 3000, 'ike_lifetime': 5000}),
         ('child-retry', {'child_dh': ['20', '19'], 'child_dh_b': ['19', '20'], 'dpd': 3000, 'ike_lifetime': 5000}),
+        # the responder's first choice is not the initiator's: the keys are cut for what was CHOSEN (other key lengths), not for what was offered first
+        ('child-preference-orders', {'child_encr': ['aes128', 'aes256'], 'child_encr_b': ['aes256', 'aes128'], 'child_integ': ['sha1', 'sha512'],
+                                     'child_integ_b': ['sha512', 'sha1'], 'dpd': 3000, 'ike_lifetime': 5000}),
+        ('child-preference-orders-pfs', {'child_encr': ['aes256', 'aes128'], 'child_encr_b': ['aes128'], 'child_integ': ['sha256', 'sha1'],
+                                         'child_integ_b': ['sha1'], 'child_dh': ['14'], 'dpd': 3000, 'ike_lifetime': 5000}),
     ]
     for name, conf in scenarios:
         seed = rng.randrange(1 << 30)
